@@ -310,6 +310,59 @@ func (e *Env) Exec(sc *Scenario, b *Built, opID string, watchdog time.Duration) 
 				}
 				ret["closed"] = true
 			}
+		case "copy":
+			// delta: ok (two files of every target) | missingpath (one of them does not exist) | missingid (one more target that is not a workload)
+			targets := map[string][]string{}
+			npairs := 0
+			for _, id := range ids {
+				targets[id] = []string{"/f1", "/f2"}
+				if op.Delta == "missingpath" {
+					targets[id] = []string{"/f1", "/missing/f"}
+				}
+				npairs += 2
+			}
+			if op.Delta == "missingid" {
+				targets["0000000000000000000000000000000000000000000000000000000000000000"] = []string{"/f1"}
+				npairs++
+			}
+			ret["npairs"] = npairs
+			ch, err := e.Cal.Copy(ctx, &coretypes.CopyOptions{Targets: targets})
+			fail(err)
+			if err == nil {
+				for m := range ch {
+					out = append(out, Event{"ev": "Msg", "op": opID, "kind": "copy", "id": m.ID, "path": m.Path, "class": class2(m.Error), "err": errText(m.Error),
+						"content": string(m.Content), "known": contains(ids, m.ID)})
+				}
+				ret["closed"] = true
+			}
+		case "execute":
+			// delta: ok | exit3 | execerr (the engine refuses) | codeerr (the exit code cannot be read)
+			e.Eng.mu.Lock()
+			e.Eng.B = Behaviour{Output: "line one\nline two\n", ExecErr: op.Delta == "execerr", CodeErr: op.Delta == "codeerr"}
+			if op.Delta == "exit3" {
+				e.Eng.B.ExitCode = 3
+			}
+			e.Eng.mu.Unlock()
+			id := ""
+			if len(ids) > 0 {
+				id = ids[0]
+			}
+			ch := e.Cal.ExecuteWorkload(ctx, &coretypes.ExecuteWorkloadOptions{WorkloadID: id, Commands: []string{"true"}}, nil)
+			fail(nil)
+			for m := range ch {
+				data := string(m.Data)
+				code := -1
+				if strings.HasPrefix(data, "[exitcode] ") {
+					if c, err := strconv.Atoi(strings.TrimPrefix(data, "[exitcode] ")); err == nil {
+						code = c
+					}
+				}
+				if len(data) > 60 {
+					data = data[:60]
+				}
+				out = append(out, Event{"ev": "Msg", "op": opID, "kind": "execute", "id": m.WorkloadID, "exit": code >= 0, "code": code, "class": "ok", "data": data})
+			}
+			ret["closed"] = true
 		case "control":
 			ch, err := e.Cal.ControlWorkload(ctx, ids, op.Delta, op.Force) // delta: stop | start | restart | suspend | resume
 			fail(err)
